@@ -27,11 +27,15 @@ def run(ctx):
     paths = A.Interp(fx, crates=(AGENT,), max_paths=6000).explore(READ_CAND)
     chk.extra["paths_explored"] = len(paths)
     chk.floor("C16 paths of Maybe<Candidate>::read_xml", len(paths), 20)
+    r5_other_content(chk, fx, t, paths)
+    if any(p.calls("ReadXml::read_xml", "BorrowedReadXml::borrowed_read_xml") for p in paths):
+        # the content scan is another type's reader (reported by R5): the rules that read this function's own scan have nothing to read
+        r4(chk, fx)
+        return
     r1(chk, fx, t, paths)
     r2(chk, fx, t, paths)
     r3(chk, fx, t, paths)
     r4(chk, fx)
-    r5_other_content(chk, fx, t, paths)
 
 
 # ---------------------------------------------------------------------------------------------------------------------------------
